@@ -90,6 +90,7 @@ type qry struct {
 	names []string
 	uniq  []bool
 	ctes  []*src // Q sources rendered in this query's WITH clause
+	tag   string
 	est   int
 	cost  int
 }
@@ -423,7 +424,8 @@ type qgen struct {
 	lits   []value.Primary
 	nAlias int
 	nCTE   int
-	ctes   []*src
+	ctes   []*src // CTEs defined so far in the WITH clause of the query under construction
+	outer  []*src // CTEs of the enclosing queries (visible in nested sub-selects)
 }
 
 func (x *qgen) alias() string { x.nAlias++; return "a" + strconv.Itoa(x.nAlias) }
@@ -663,22 +665,21 @@ func (x *qgen) pickTable(maxRows int) *table {
 
 func (x *qgen) leaf(nest, maxRows int) *src {
 	g := x.g
-	if len(x.ctes) > 0 && g.Intn(8) == 0 {
-		c := x.ctes[g.Intn(len(x.ctes))]
-		s := &src{kind: 'Q', q: c.q, asCTE: true, cteName: c.cteName, alias: x.alias(), est: c.est, cost: 0}
-		s.layout = make([]col, len(c.layout))
-		for i, cc := range c.layout {
-			s.layout[i] = col{s.alias, cc.name, cc.uniq}
+	if n := len(x.ctes) + len(x.outer); n > 0 && g.Intn(4) == 0 {
+		k := g.Intn(n)
+		var c *src
+		if k < len(x.ctes) {
+			c = x.ctes[k]
+		} else {
+			c = x.outer[k-len(x.ctes)]
 		}
-		return s
+		if c.est <= maxRows {
+			return x.refTo(c)
+		}
 	}
 	if nest > 0 && g.Intn(10) < 3 {
 		q := x.query(nest-1, false, maxRows)
-		s := &src{kind: 'Q', q: q, alias: x.alias(), est: q.est, cost: q.cost}
-		s.layout = make([]col, len(q.names))
-		for i, n := range q.names {
-			s.layout[i] = col{s.alias, n, q.uniq[i]}
-		}
+		s := x.subOf(q)
 		if g.Intn(3) == 0 {
 			s.asCTE = true
 			s.cteName = x.cte()
@@ -893,10 +894,32 @@ func uniqueNames(lay []col) bool {
 	return true
 }
 
+// refTo makes a new reference (own alias) to an already defined CTE
+func (x *qgen) refTo(c *src) *src {
+	s := &src{kind: 'Q', q: c.q, asCTE: true, cteName: c.cteName, alias: x.alias(), est: c.est, cost: 0}
+	s.layout = make([]col, len(c.layout))
+	for i, cc := range c.layout {
+		s.layout[i] = col{s.alias, cc.name, cc.uniq}
+	}
+	return s
+}
+
+func (x *qgen) enter() (saved, savedOuter []*src) {
+	saved, savedOuter = x.ctes, x.outer
+	x.outer = append(append([]*src{}, x.outer...), x.ctes...)
+	x.ctes = nil
+	return
+}
+
+func (x *qgen) leave(q *qry, saved, savedOuter []*src) {
+	q.ctes = x.ctes
+	x.ctes, x.outer = saved, savedOuter
+	q.est, q.cost = q.from.est, q.from.cost
+}
+
 func (x *qgen) query(nest int, top bool, maxRows int) *qry {
 	g := x.g
-	saved := x.ctes
-	x.ctes = nil
+	saved, savedOuter := x.enter()
 	var n int
 	if top {
 		n = []int{1, 1, 1, 2, 2, 2, 2, 3, 3, 4}[g.Intn(10)]
@@ -904,11 +927,23 @@ func (x *qgen) query(nest int, top bool, maxRows int) *qry {
 		n = []int{1, 1, 1, 1, 2, 2, 2, 3}[g.Intn(8)]
 	}
 	q := &qry{from: x.tree(n, nest, maxRows)}
+	whereP := 40
+	if top {
+		whereP = 60
+	}
+	x.finish(q, top, whereP)
+	x.leave(q, saved, savedOuter)
+	return q
+}
+
+// finish draws WHERE and the select list of a query whose FROM is built
+func (x *qgen) finish(q *qry, allowDupNames bool, whereP int) {
+	g := x.g
 	lay := q.from.layout
-	if (top && g.Intn(100) < 60) || (!top && g.Intn(100) < 40) {
+	if g.Intn(100) < whereP {
 		q.where = x.cond(1+g.Intn(3), lay, nil)
 	}
-	if (top || uniqueNames(lay)) && g.Intn(100) < 40 {
+	if (allowDupNames || uniqueNames(lay)) && g.Intn(100) < 40 {
 		q.star = true
 		for _, c := range lay {
 			q.names = append(q.names, c.name)
@@ -932,9 +967,144 @@ func (x *qgen) query(nest int, top bool, maxRows int) *qry {
 			q.uniq = append(q.uniq, lay[j].uniq)
 		}
 	}
-	q.ctes = x.ctes
-	x.ctes = saved
-	q.est, q.cost = q.from.est, q.from.cost
+}
+
+func (x *qgen) subOf(q *qry) *src {
+	s := &src{kind: 'Q', q: q, alias: x.alias(), est: q.est, cost: q.cost}
+	s.layout = make([]col, len(q.names))
+	for i, n := range q.names {
+		s.layout[i] = col{s.alias, n, q.uniq[i]}
+	}
+	return s
+}
+
+// wrap puts a reference into a derived table that filters it and / or projects a subset / a permutation of its
+// columns (the in-place operations of View.filter and View.Fix run on the referenced view)
+func (x *qgen) wrap(ref *src) *src {
+	g := x.g
+	saved, savedOuter := x.enter()
+	q := &qry{from: ref}
+	lay := ref.layout
+	mode := g.Intn(4) // 0 filter only, 1 project only, 2 both, 3 both
+	if mode != 1 {
+		q.where = x.cond(g.Intn(2), lay, nil)
+	}
+	if mode == 0 && uniqueNames(lay) {
+		q.star = true
+		for _, c := range lay {
+			q.names = append(q.names, c.name)
+			q.uniq = append(q.uniq, c.uniq)
+		}
+	} else {
+		perm := g.Perm(len(lay))
+		k := 1 + g.Intn(len(lay))
+		if g.Intn(2) == 0 {
+			k = len(lay) // pure permutation
+		}
+		used := map[string]bool{}
+		for _, j := range perm[:k] {
+			name := lay[j].name
+			for c := 2; used[name]; c++ {
+				name = lay[j].name + "_" + strconv.Itoa(c)
+			}
+			used[name] = true
+			q.sel = append(q.sel, j)
+			q.names = append(q.names, name)
+			q.uniq = append(q.uniq, lay[j].uniq)
+		}
+	}
+	x.leave(q, saved, savedOuter)
+	return x.subOf(q)
+}
+
+// multiRef builds a query whose FROM references ONE source (a CTE, a temporary table, or — mk given — the
+// recursive table) two or three times, at different nesting depths: the earlier references mostly inside derived
+// tables that filter / project / permute, the last one mostly direct; also plain self-joins.
+func (x *qgen) multiRef(mk func() *src, targetEst int) *qry {
+	g := x.g
+	saved, savedOuter := x.enter()
+	kind := "rec"
+	if mk == nil {
+		if g.Intn(10) < 6 {
+			kind = "cte"
+			var body *qry
+			for try := 0; try < 20; try++ {
+				body = x.query(1, false, 60)
+				if body.est <= 60 && body.cost <= 20000 {
+					break
+				}
+				body = nil
+			}
+			if body == nil {
+				saved2, so2 := x.enter()
+				body = &qry{from: x.leaf(0, 30)}
+				x.finish(body, false, 40)
+				x.leave(body, saved2, so2)
+			}
+			def := x.subOf(body)
+			def.asCTE, def.cteName = true, x.cte()
+			x.ctes = append(x.ctes, def)
+			targetEst = body.est
+			first := true
+			mk = func() *src {
+				if first {
+					first = false
+					return def
+				}
+				return x.refTo(def)
+			}
+			if g.Intn(4) == 0 {
+				// a second CTE defined over the first one (filtering / projecting it), then both are used
+				d2 := x.wrap(mk())
+				d2.asCTE, d2.cteName = true, x.cte()
+				x.ctes = append(x.ctes, d2)
+				kind = "cte2"
+				mk2 := mk
+				used2 := false
+				mk = func() *src {
+					if !used2 {
+						used2 = true
+						return d2
+					}
+					return mk2()
+				}
+			}
+		} else {
+			kind = "table"
+			t := x.pickTable(60)
+			targetEst = len(t.rows)
+			mk = func() *src { return leafOf(x, t) }
+		}
+	}
+	n := 2
+	if targetEst <= 16 && g.Intn(3) == 0 {
+		n = 3
+	}
+	leaves := make([]*src, n)
+	nwrap := 0
+	for i := range leaves {
+		s := mk()
+		wrapP := 80
+		if i == n-1 {
+			wrapP = 20
+		}
+		if g.Intn(100) < wrapP {
+			s = x.wrap(s)
+			nwrap++
+			if g.Intn(4) == 0 {
+				s = x.wrap(s) // one level deeper
+			}
+		}
+		leaves[i] = s
+	}
+	from := leaves[0]
+	for _, r := range leaves[1:] {
+		from = x.join(from, r, false)
+	}
+	q := &qry{from: from}
+	x.finish(q, true, 20)
+	x.leave(q, saved, savedOuter)
+	q.tag = fmt.Sprintf("multiref:%s:refs=%d:wrapped=%d", kind, n, nwrap)
 	return q
 }
 
@@ -971,6 +1141,9 @@ func srcShape(s *src, o *hc.Out, depth int) string {
 			if s.asCTE {
 				o.Count("cte_reference")
 			}
+		}
+		if s.asCTE {
+			return "K" + s.cteName + "[" + queryShape(s.q, o, depth+1) + "]"
 		}
 		return "Q[" + queryShape(s.q, o, depth+1) + "]"
 	}
@@ -1030,6 +1203,8 @@ func run(seed int64, n int, dir string, _ []string) {
 
 	// the pre-finding F15 witness runs first on every run
 	lateralWitness(pr, o)
+	cteWitness(pr, o)
+	tempTableWitness(pr, o)
 
 	x := &qgen{g: g}
 	for i := 0; i < n; i++ {
@@ -1057,7 +1232,12 @@ func run(seed int64, n int, dir string, _ []string) {
 			if try > 12 {
 				maxRows = 30
 			}
-			q = x.query(3, true, maxRows)
+			x.ctes, x.outer = nil, nil
+			if i%5 == 2 {
+				q = x.multiRef(nil, 0)
+			} else {
+				q = x.query(3, true, maxRows)
+			}
 			if q.est <= 6000 && q.cost <= 120000 && maxEst(q.from) <= 12000 {
 				break
 			}
@@ -1084,6 +1264,10 @@ func run(seed int64, n int, dir string, _ []string) {
 		op := fmt.Sprintf("c03.q %d %s %s", cpu, e.header(), plan)
 		o.Case(op, canon(v))
 		shape := queryShape(q, o, 0)
+		if q.tag != "" {
+			o.Count(q.tag)
+			shape += "|" + q.tag
+		}
 		o.Count(fmt.Sprintf("sources=%d", countLeaves(q.from)))
 		o.Count(fmt.Sprintf("join_depth=%d", joinDepth(q.from)))
 		o.Count("result_rows=" + band(v.RecordLen()))
